@@ -1,4 +1,4 @@
-"""C11 -- undo and redo are exact inverses (clauses R11.1-R11.12)."""
+"""C11 -- undo and redo are exact inverses (clauses R11.1-R11.13)."""
 from __future__ import annotations
 
 import ast
@@ -19,6 +19,7 @@ EXPLANATION = (
     " R11.9: the saved undo/redo lists are rebuilt in the order they were saved (writer direction x loader direction x insertion end, per slot).  R11.10: every constant-index pick of 'the last change' in undo/redo is [-1] (changes are appended)."
     ' R11.11: a change is recorded for undo as soon as one of its resources is not ignored.'
 )
+EXPLANATION += " R11.13: dependencies between changes are decided on paths, not on Resource objects or the recorded object's kind."
 ASSUMPTIONS = ["_ResourceOperations primitives do what their names say (C13/C16 check notify and codec separately)"]
 
 INVERSE = {"write_file": "write_file", "move": "move", "create": "remove", "remove": "create"}
@@ -32,7 +33,7 @@ def _ops(fn: ast.AST) -> List[Tuple[str, List[str], ast.Call]]:
     return out
 
 
-def check(ctx, res) -> None:
+def _check_body(ctx, res) -> None:
     idx = ctx.idx
     comp = common.composite_change(idx)
     kinds = 0
@@ -353,9 +354,70 @@ def check(ctx, res) -> None:
         for c in calls_in(g.node):
             if isinstance(c.func, ast.Attribute) and c.func.attr == "contains" and len(c.args) == 1:
                 here.add((norm(c.func.value), norm(c.args[0])))
+            # the same test on path strings: `a.startswith(b + "/")`
+            if isinstance(c.func, ast.Attribute) and c.func.attr == "startswith" and len(c.args) == 1 and isinstance(c.args[0], ast.BinOp) \
+                    and isinstance(c.args[0].op, ast.Add) and isinstance(c.args[0].right, ast.Constant) and c.args[0].right.value == "/":
+                here.add((norm(c.args[0].left), norm(c.func.value)))
         pairs |= here
         sym = sym or any((b, a) in here for a, b in here)
     res.add("R11.4", "_FindChangeDependencies._depends_on", bool(pairs) and sym, dep.where,
             "containment is tested in both directions" if pairs and sym else
             "the dependency test checks containment in one direction only: a change to a file inside a later created/moved folder "
             "(or vice versa) is not recognised as dependent, so a selective undo leaves it in force")
+
+
+def _dependency_by_path_rule(ctx, res) -> None:
+    """R11.13: which later changes a selective undo must take along is a question about PATHS: over a history the same path can
+    be a file, be moved away, and come back as a folder.  Resource equality includes the class (`File('x') != Folder('x')`)
+    and `is_folder()` describes the object that was recorded, not what is at the path now.  In the dependency test (the
+    function and the private helpers it calls) no positive decision hangs on membership of a resource OBJECT in the
+    recorded set, and none on the recorded object's `is_folder()`; the decision reads the `.path` of both sides.  A
+    decision is a `return True` (its guards are looked at) or a returned expression (`return any(...)`: looked at whole)."""
+    from ..cfg import CFG
+    from . import common
+    idx = ctx.idx
+    f = idx.need_func("rope.base.history._FindChangeDependencies._depends_on")
+    parts = common.with_private_helpers(idx, f)
+    n = 0
+    bad = None
+
+    def forbidden(t):
+        for y in ast.walk(t):
+            if isinstance(y, ast.Compare) and len(y.ops) == 1 and isinstance(y.ops[0], ast.In) and is_self_attr(y.comparators[0]) \
+                    and not any(isinstance(z, ast.Attribute) and z.attr == "path" for z in ast.walk(y.left)):
+                return f"`{ast.unparse(y)}`: membership of a Resource OBJECT (equality includes the class)"
+            if isinstance(y, ast.Call) and call_name(y) == "is_folder":
+                return f"`{ast.unparse(y)}`: the kind of the recorded object"
+        return None
+
+    paths = 0
+    for g in parts:
+        paths += sum(1 for x in ast.walk(g.node) if isinstance(x, ast.Attribute) and x.attr == "path")
+        cfg = CFG(g.node)
+        for nd in cfg.nodes:
+            if nd.kind != "stmt" or not isinstance(nd.ast, ast.Return) or nd.ast.value is None:
+                continue
+            v = nd.ast.value
+            if isinstance(v, ast.Constant):
+                if v.value is not True:
+                    continue
+                n += 1
+                for t, pol in cfg.guards(nd.id):
+                    if pol and forbidden(t):
+                        bad = bad or (nd, forbidden(t))
+            else:
+                n += 1
+                if forbidden(v):
+                    bad = bad or (nd, forbidden(v))
+    if n == 0:
+        raise AnalysisError("anchor=_FindChangeDependencies._depends_on: no decision found")
+    ok = bad is None and paths >= 2
+    res.add("R11.13", "_depends_on|decided-on-paths", ok, f"{f.unit.rel}:{(bad[0] if bad else f.node).lineno}",
+            "dependencies between changes are decided by comparing paths" if ok else
+            "a dependency is recognised under " + (bad[1] if bad else "a test that does not read the paths of both resources") +
+            ": after `create file x`, `move x to y`, `create folder x`, `create x/keep.py` the later changes are not found to depend on the first -- undoing "
+            "it removes the path x with everything below it while those changes stay listed as performed", function=f.qualname)
+
+def check(ctx, res) -> None:
+    _check_body(ctx, res)
+    _dependency_by_path_rule(ctx, res)
